@@ -2269,6 +2269,104 @@ Example ex_flat_template :
 Proof. repeat constructor. Qed.
 
 (* ------------------------------------------------------------------ *)
+(** * Sizes of a Go value = InputSizes of its text *)
+
+Lemma testbit_true_ge z n : 0 <= z -> 0 <= n -> Z.testbit z n = true -> 2 ^ n <= z.
+Proof.
+  intros Hz Hn H. apply Z.testbit_true in H; [|exact Hn].
+  assert (Hp : 0 < 2 ^ n) by (apply Z.pow_pos_nonneg; lia).
+  assert (Hq : 1 <= z / 2 ^ n).
+  { destruct (Z_lt_le_dec (z / 2 ^ n) 1) as [Hlt|]; [|assumption].
+    assert (z / 2 ^ n = 0) by (pose proof (Z.div_pos z (2 ^ n) Hz Hp); lia).
+    rewrite H0 in H. discriminate. }
+  pose proof (Z.mul_div_le z (2 ^ n) Hp). nia.
+Qed.
+
+Lemma bit_len_loop_fixed_lower z : 0 < z -> forall k,
+  2 ^ (Z.of_nat (bit_len_loop_fixed k z) - 1) <= z.
+Proof.
+  intros Hz. induction k as [|k IH]; cbn [bit_len_loop_fixed].
+  - simpl. lia.
+  - destruct (Z.testbit z (Z.of_nat (S k))) eqn:E; [|exact IH].
+    replace (Z.of_nat (S k + 1) - 1) with (Z.of_nat (S k)) by lia.
+    apply testbit_true_ge; lia.
+Qed.
+
+Lemma bit_width_unique z a b :
+  2 ^ (Z.of_nat a - 1) <= z < 2 ^ Z.of_nat a -> 2 ^ (Z.of_nat b - 1) <= z < 2 ^ Z.of_nat b ->
+  (0 < a)%nat -> (0 < b)%nat -> a = b.
+Proof.
+  intros Ha Hb Pa Pb.
+  destruct (Nat.lt_trichotomy a b) as [H|[H|H]]; [exfalso|exact H|exfalso].
+  - assert (2 ^ Z.of_nat a <= 2 ^ (Z.of_nat b - 1)) by (apply Z.pow_le_mono_r; lia). lia.
+  - assert (2 ^ Z.of_nat b <= 2 ^ (Z.of_nat a - 1)) by (apply Z.pow_le_mono_r; lia). lia.
+Qed.
+
+Lemma bit_len_loop_fixed_pos k z : (0 < bit_len_loop_fixed k z)%nat.
+Proof. induction k as [|k IH]; cbn [bit_len_loop_fixed]; [lia|]. destruct (Z.testbit z (Z.of_nat (S k))); lia. Qed.
+
+(* bitLen agrees with big.Int.BitLen on every non-zero uint64; bitLen(0) = 1 *)
+Lemma bit_len_fixed_eq_bit_len z : 0 < z < 2 ^ 64 -> bit_len_fixed z = bit_len z.
+Proof.
+  intros Hz.
+  destruct (bit_len_spec z ltac:(lia)) as (Hu & Hl).
+  apply (bit_width_unique z).
+  - split; [apply bit_len_loop_fixed_lower; lia | apply bit_len_fixed_holds; lia].
+  - split; [apply Hl; lia | exact Hu].
+  - apply bit_len_loop_fixed_pos.
+  - destruct z; simpl; try lia. destruct p; simpl; lia.
+Qed.
+
+Lemma bit_len_fixed_zero : bit_len_fixed 0 = 1%nat.
+Proof. reflexivity. Qed.
+
+Lemma bool_spelling_values s z :
+  set_string s = Some z ->
+  mem_str s bool_false_spellings || mem_str s bool_true_spellings = true ->
+  (s = s_0 /\ z = 0) \/ (s = s_1 /\ z = 1).
+Proof.
+  intros Hs H. unfold mem_str, bool_false_spellings, bool_true_spellings in H. simpl existsb in H.
+  repeat rewrite orb_true_iff in H.
+  destruct H as [[H|[H|[H|H]]]|[H|[H|[H|H]]]]; try discriminate; apply lN_eqb_eq in H; subst s;
+    vm_compute in Hs; try discriminate; inversion Hs; auto.
+Qed.
+
+(* Theorem (4), Go value versus text: every uint64 value z INCLUDING 0, every
+   spelling of it that SetString reads (not a 0x literal, not the repeat form;
+   0 is written "0"): circuit.Sizes of the Go value and circuit.InputSizes of
+   the text infer the same size (for 0: one bit, bitLen(0) = 1 and "0" -> 1) *)
+Lemma sizes_eq_input_sizes s z :
+  0 <= z < 2 ^ 64 -> set_string s = Some z ->
+  match_hex_input s = None -> has_prefix s_0x s = false ->
+  (z = 0 -> s = s_0) ->
+  exists n, sizes [GInt z] = Ok [n] /\ input_sizes [s] = Ok [n] /\ (0 < n)%nat.
+Proof.
+  intros Hz Hs Hm Hp H0.
+  assert (Hu : uint64_conv z = z) by (unfold uint64_conv; apply Z.mod_small; lia).
+  exists (bit_len_fixed z).
+  split; [unfold sizes, bit_len_now; simpl; rewrite Hu; reflexivity|].
+  split; [|apply bit_len_loop_fixed_pos].
+  destruct (mem_str s bool_false_spellings || mem_str s bool_true_spellings) eqn:Eb.
+  - destruct (bool_spelling_values s z Hs Eb) as [[-> ->]|[-> ->]]; reflexivity.
+  - apply orb_false_iff in Eb. destruct Eb as (Ef & Et).
+    assert (Hz0 : 0 < z).
+    { destruct (Z.eq_dec z 0) as [E|]; [|lia]. rewrite (H0 E) in Ef. discriminate Ef. }
+    apply input_sizes_each. repeat constructor.
+    rewrite (input_size_literal s z Hs Ef Et Hm). unfold literal_bit_len. rewrite Hp.
+    f_equal. symmetry. apply bit_len_fixed_eq_bit_len. lia.
+Qed.
+
+(* the value 0: one wire, from the Go value and from the text alike *)
+Example sizes_of_zero :
+  sizes [GInt 0] = Ok [1%nat] /\ input_sizes [s_0] = Ok [1%nat] /\ bit_len_now 0 = 1%nat /\
+  instantiate (template_of (TyUint 0)) [1%nat] = Ok (info_of (TyUint 1)) /\
+  (exists n, sizes [GInt 0] = Ok [n] /\ input_sizes [s_0] = Ok [n] /\ (0 < n)%nat).
+Proof.
+  repeat split; try reflexivity.
+  apply (sizes_eq_input_sizes s_0 0); try reflexivity; try lia.
+Qed.
+
+(* ------------------------------------------------------------------ *)
 (** * The string constants of the model are the Go literals *)
 Module StrConst.
 Import String Ascii.
